@@ -1,60 +1,85 @@
-(* STUB: replaced at merge by the C14 / C15 model *)
-(* dvb.go: parseDVBTime / parseDVBDurationSeconds / parseDVBDurationMinutes.
-   The date formula of parseDVBTime is written in float64 in the source; this stub evaluates
-   the same formula over the rationals (int() = truncation toward zero = Z.quot), which agrees
-   with the float evaluation whenever no quotient comes within rounding error of an integer
-   (true for every 16-bit MJD; the C15 model establishes this with PrimFloat).
-   time.Date normalises an out-of-range month and adds the day linearly. *)
+(* STUB: replaced at merge by the C15 model *)
+(* dvb.go: parseDVBTime / parseDVBDurationMinutes / parseDVBDurationSeconds and their writers, behind the
+   interface the descriptor model (local time offset) uses.  The date uses exact rational arithmetic in
+   place of the float64 expressions of dvb.go (same truncations, same order); the harness of C14 compares
+   it with the implementation on all 65536 MJD words. time.Time = Unix seconds, time.Duration = ns. *)
 From Coq Require Import ZArith List Lia Bool.
-Require Import Base.Bits Base.Iter Gen.Consts Gen.Types Gen.Preds.
+Require Import Base.Bits Base.Iter Base.Wr Gen.Consts Gen.Types Gen.Preds.
 Import ListNotations.
 Open Scope Z_scope.
 Open Scope iter_scope.
 
-(* days from 1970-01-01 to the first day of (proleptic Gregorian) month m (1..12) of year y *)
+Definition ns_hour : Z := 3600000000000.
+Definition ns_minute : Z := 60000000000.
+Definition ns_second : Z := 1000000000.
+
+(* days from 1970-01-01 to the civil date y-m-d, with time.Date's normalisation of months outside
+   1..12 and of days outside the month (the day is simply added) *)
 Definition days_from_civil (y m d : Z) : Z :=
+  let y := y + (m - 1) / 12 in
+  let m := (m - 1) mod 12 + 1 in
   let y' := if m <=? 2 then y - 1 else y in
   let era := y' / 400 in
   let yoe := y' - era * 400 in
   let mp := (m + 9) mod 12 in
-  let doy := (153 * mp + 2) / 5 + d - 1 in
+  let doy := (153 * mp + 2) / 5 in
   let doe := yoe * 365 + yoe / 4 - yoe / 100 + doy in
-  era * 146097 + doe - 719468.
+  era * 146097 + doe - 719468 + (d - 1).
 
-(* time.Date(y, m, d, 0,0,0,0, UTC).Unix() / 86400 *)
-Definition go_date_days (y m d : Z) : Z :=
-  let m0 := m - 1 in
-  let y' := y + m0 / 12 in
-  let m' := m0 mod 12 + 1 in
-  days_from_civil y' m' 1 + (d - 1).
+(* civil date of a day number (days since 1970-01-01) *)
+Definition civil_from_days (z : Z) : Z * Z * Z :=
+  let z := z + 719468 in
+  let era := z / 146097 in
+  let doe := z - era * 146097 in
+  let yoe := (doe - doe / 1460 + doe / 36524 - doe / 146096) / 365 in
+  let y := yoe + era * 400 in
+  let doy := doe - (365 * yoe + yoe / 4 - yoe / 100) in
+  let mp := (5 * doy + 2) / 153 in
+  let d := doy - (153 * mp + 2) / 5 + 1 in
+  let m := if mp <? 10 then mp + 3 else mp - 9 in
+  (if m <=? 2 then y + 1 else y, m, d).
 
+(* the date part of parseDVBTime: Annex C of EN 300 468 with int() truncating toward zero *)
 Definition dvb_date_days (mjd : Z) : Z :=
-  let yt := Z.quot (20 * mjd - 301564) 7305 in            (* int((mjd - 15078.2) / 365.25) *)
-  let k1 := Z.quot (yt * 1461) 4 in                        (* int(yt * 365.25) *)
-  let mt := Z.quot (10000 * (mjd - k1) - 149561000) 306001 in  (* int((mjd - 14956.1 - k1) / 30.6001) *)
-  let k2 := Z.quot (mt * 306001) 10000 in                  (* int(mt * 30.6001) *)
-  let d := mjd - 14956 - k1 - k2 in
+  let yt := Z.quot (20 * mjd - 301564) 7305 in                       (* int((mjd - 15078.2) / 365.25) *)
+  let k1 := Z.quot (yt * 1461) 4 in                                    (* int(yt * 365.25) *)
+  let mt := Z.quot ((10 * mjd - 149561 - 10 * k1) * 1000) 306001 in    (* int((mjd - 14956.1 - k1) / 30.6001) *)
+  let d := mjd - 14956 - k1 - Z.quot (mt * 306001) 10000 in
   let k := if (mt =? 14) || (mt =? 15) then 1 else 0 in
-  go_date_days (1900 + yt + k) (mt - 1 - k * 12) d.
+  days_from_civil (1900 + yt + k) (mt - 1 - k * 12) d.
 
-Definition ns_second : Z := 1000000000.
-Definition ns_minute : Z := 60 * ns_second.
-Definition ns_hour : Z := 60 * ns_minute.
+Definition parse_dvb_duration_minutes : IM Z :=
+  bs <- next_bytes_nocopy 2 ;;
+  iret (parseDVBDurationByte (byte_at bs 0) * ns_hour + parseDVBDurationByte (byte_at bs 1) * ns_minute).
 
-(* parseDVBDurationSeconds: nanoseconds *)
 Definition parse_dvb_duration_seconds : IM Z :=
   bs <- next_bytes_nocopy 3 ;;
   iret (parseDVBDurationByte (byte_at bs 0) * ns_hour + parseDVBDurationByte (byte_at bs 1) * ns_minute
         + parseDVBDurationByte (byte_at bs 2) * ns_second).
 
-(* parseDVBDurationMinutes: nanoseconds *)
-Definition parse_dvb_duration_minutes : IM Z :=
-  bs <- next_bytes_nocopy 2 ;;
-  iret (parseDVBDurationByte (byte_at bs 0) * ns_hour + parseDVBDurationByte (byte_at bs 1) * ns_minute).
-
-(* parseDVBTime: Unix seconds *)
 Definition parse_dvb_time : IM Z :=
   bs <- next_bytes_nocopy 2 ;;
   let mjd := be16 bs in
   s <- parse_dvb_duration_seconds ;;
-  iret (dvb_date_days mjd * 86400 + s / ns_second).
+  iret (dvb_date_days mjd * 86400 + Z.quot s ns_second).
+
+(* uint8(d.Hours()), uint8(int(d.Minutes()) % 60), uint8(int(d.Seconds()) % 60) for durations whose
+   float64 quotients are exact enough (whole seconds, |d| < 2^53 ns) *)
+Definition dur_hours (ns : Z) : Z := (Z.quot ns ns_hour) mod 256.
+Definition dur_minutes (ns : Z) : Z := (Z.rem (Z.quot ns ns_minute) 60) mod 256.
+Definition dur_seconds (ns : Z) : Z := (Z.rem (Z.quot ns ns_second) 60) mod 256.
+
+Definition enc_dvb_duration_minutes (ns : Z) : list witem :=
+  [wu8 (dvbDurationByteRepresentation (dur_hours ns)); wu8 (dvbDurationByteRepresentation (dur_minutes ns))].
+
+Definition enc_dvb_duration_seconds (ns : Z) : list witem :=
+  [wu8 (dvbDurationByteRepresentation (dur_hours ns)); wu8 (dvbDurationByteRepresentation (dur_minutes ns));
+   wu8 (dvbDurationByteRepresentation (dur_seconds ns))].
+
+(* writeDVBTime for a UTC time: mjd from Year/Month/Day, then the time of day *)
+Definition enc_dvb_time (unix : Z) : list witem :=
+  let '(y, m, d) := civil_from_days (unix / 86400) in
+  let year := y - 1900 in
+  let l := if m <=? 2 then 1 else 0 in
+  let mjd := 14956 + d + Z.quot ((year - l) * 1461) 4 + Z.quot ((m + 1 + l * 12) * 306001) 10000 in
+  wu16 mjd :: enc_dvb_duration_seconds ((unix mod 86400) * ns_second).
